@@ -98,8 +98,8 @@ impl LibraryPath {
     pub fn first(&self) -> &str {
         self.path
             .split_once(Self::PATH_DELIM)
-            .expect("a valid library path must always have at least one component")
-            .0
+            .map(|(first, _)| first)
+            .unwrap_or(self.path.as_str())
     }
 
     /// Returns the last component of the path.
@@ -108,8 +108,8 @@ impl LibraryPath {
     pub fn last(&self) -> &str {
         self.path
             .rsplit_once(Self::PATH_DELIM)
-            .expect("a valid library path must always have at least one component")
-            .1
+            .map(|(_, last)| last)
+            .unwrap_or(self.path.as_str())
     }
 
     /// Returns the number of components in the path.
